@@ -544,3 +544,63 @@ Definition f64_bits_of_int (z : Z) : Z :=
     let e := Z.log2 a in
     let m := if Z.leb e 52 then Z.shiftl a (52 - e) else Z.shiftr a (e - 52) in
     ((if Z.ltb z 0 then 2 ^ 63 else 0) + Z.shiftl (e + 1023) 52 + (m - 2 ^ 52))%Z.
+
+(* ================= more specification vocabulary (used by the theorems of props/C17.v) ================= *)
+(* what the tokenizer does with a field, as a function: strip the quotes, undouble *)
+Fixpoint undq (s : string) : string :=
+  match s with
+  | EmptyString => EmptyString
+  | String c r =>
+      if Ascii.eqb c cQUOTE then
+        match r with
+        | String c' r' => if Ascii.eqb c' cQUOTE then String c (undq r') else String c (undq r)
+        | EmptyString => EmptyString          (* the closing quote *)
+        end
+      else String c (undq r)
+  end.
+
+Definition unquote (s : string) : string :=
+  match s with
+  | String c r => if Ascii.eqb c cQUOTE then undq r else s
+  | EmptyString => s
+  end.
+
+(* a written line never starts with a line break, blank or tab: it starts with the row label (a digit) or,
+   for the header, with the delimiter *)
+Definition row_start_ok (r : list string) : bool :=
+  match join_line r with
+  | EmptyString => false
+  | String c _ => negb (Ascii.eqb c cLF || Ascii.eqb c cCR || Ascii.eqb c cSP || Ascii.eqb c cTAB)
+  end.
+
+Definition row_ok (r : list string) : Prop := row_start_ok r = true /\ Forall (fun f => cr_ok f = true) r.
+
+Definition label_column (n : nat) : list string := map (fun i => dec_z (Z.of_nat i)) (seq 0 n).
+
+Definition expect_same (c : tcell) : rcell :=
+  match c with TInt z => RInt z | TBool b => RBool b | TFloat l => RFlit l | TStr s => RStr s | TNA => RNaN end.
+
+Definition int_as_float (c : tcell) : rcell :=
+  match c with
+  | TInt z => if Z.eqb z i64_min then RNaN else RFint (round_f64 z)
+  | _ => RNaN
+  end.
+
+Definition three_ids : string * list tcell := ("id"%string, [TInt 1; TInt 2; TInt 3]).
+Definition w_int_missing : tframe := [three_ids; ("v"%string, [TInt (2 ^ 53 + 1); TNA; TInt 7])].
+Definition w_int_min : tframe := [three_ids; ("v"%string, [TInt (- 2 ^ 63); TNA; TInt 7])].
+Definition w_uint_missing : tframe := [three_ids; ("u"%string, [TInt (2 ^ 63); TNA; TInt 1])].
+Definition w_str_007 : tframe := [three_ids; ("s"%string, [TStr "007"; TStr "1"; TStr "12"])].
+Definition w_str_na : tframe := [three_ids; ("s"%string, [TStr "NA"; TStr "a"; TStr "b"])].
+Definition w_str_empty : tframe := [three_ids; ("s"%string, [TStr ""; TStr "a"; TStr "b"])].
+Definition w_str_1e3 : tframe := [three_ids; ("s"%string, [TStr "1e3"; TStr "2"; TStr "1.5"])].
+Definition w_str_true : tframe := [three_ids; ("s"%string, [TStr "True"; TStr "False"; TStr "true"])].
+Definition w_str_masked : tframe := [three_ids; ("s"%string, [TStr "007"; TNA; TStr "1"])].
+Definition w_str_cr : tframe := [three_ids; ("s"%string, [TStr (String.append "a" (String.append (chr 13) "b")); TStr "k"; TStr "m"])].
+Definition w_str_nul : tframe := [three_ids; ("s"%string, [TStr (String.append "a" (String.append (chr 0) "b")); TStr "k"; TStr "m"])].
+Definition w_bool_missing : tframe := [three_ids; ("b"%string, [TBool true; TNA; TBool true])].
+
+Definition csv_full : Prop := forall t, wf_frame t -> frame_reads_back t = true.
+
+Definition ids_in_range (ids : list Z) : bool :=
+  forallb in_i64 ids || forallb (fun z => Z.leb 0 z && Z.leb z u64_max) ids.
